@@ -28,8 +28,15 @@ func positioned(stderr, setup string) bool {
 func badHarness(skeleton string, nMethods int) (rejected bool) {
 	var texts []string
 	var err error
+	before := vrt.EffectCount()
 	stderr := vrt.CaptureStderr(func() { texts, err = frontHalf(skeleton) })
 	vrt.Observe("stderr", stderr)
+	if vrt.Symbolic() {
+		// standard output is reserved for the generated code (-print): no diagnostic goes there
+		for i := before; i < vrt.EffectCount(); i++ {
+			vrt.AssertMsg("no-diagnostic-on-stdout", vrt.EffectOp(i) != "print:stdout", vrt.EffectStr(i, 0))
+		}
+	}
 	if err != nil {
 		vrt.Observe("error", err.Error())
 		vrt.AssertMsg("rejection-has-positioned-diagnostic", positioned(stderr, vrt.SkeletonPath(skeleton)), stderr)
@@ -75,7 +82,7 @@ var mustReject = []string{
 var mustAccept = []string{
 	"", ":style arg", ":match tag", ":recv s", ":skip Name", ":skip /Na.*/", ":conv Good Name", ":conv GoodErr Name", ":conv ext.Norm Name",
 	":literal Name \"x\"", ":preprocess HookGood", ":preprocess HookNoErr", ":preprocess HookVal", ":postprocess HookGood",
-	":conv lib.Norm Name", ":reverse\n:style arg", ":unknown foo", ":typecast extra args", ":map Nope ID", ":conv Good Nope",
+	":conv lib.Norm Name", ":tag json", ":reverse\n:style arg", ":unknown foo", ":typecast extra args", ":map Nope ID", ":conv Good Nope",
 }
 
 func inList(l []string, s string) bool {
@@ -193,5 +200,23 @@ func C14TypeErrors() {
 	vrt.SlotText("dup", "D1")
 	vrt.AssertMsg("type-error-in-converter-interface-rejected", err != nil && len(texts) == 0, stderr)
 	vrt.AssertMsg("rejection-has-positioned-diagnostic", positioned(stderr, vrt.SkeletonPath("dup")), stderr)
+	vrt.Reach("end")
+}
+
+// C13BlankImport: a blank import of a package that has the NAME of a regularly imported one
+// (`_ "…/side/lib"` next to `"…/lib/v2"`, package lib) does not make the qualifier lib ambiguous:
+// under every iteration order of the import table ':conv lib.Norm Name' resolves, and the file is
+// accepted with the converter in use.
+func C13BlankImport() {
+	var texts []string
+	var err error
+	stderr := vrt.CaptureStderr(func() { texts, err = frontHalf("blank") })
+	vrt.SlotText("blank", "S1")
+	vrt.AssertMsg("accepted-under-every-map-order", err == nil && len(texts) == 2, stderr)
+	if err == nil && len(texts) == 2 {
+		all := texts[0] + texts[1]
+		vrt.AssertMsg("converter-of-the-named-import-used", strings.Contains(all, "dst.Name = lib.Norm(src.Name)"), all)
+		vrt.AssertMsg("converter-of-the-blank-import-used", strings.Contains(all, "dst.Name = cryp.Up(src.Name)"), all)
+	}
 	vrt.Reach("end")
 }
